@@ -15,6 +15,44 @@ from cardutil import mciipm, CardutilError  # noqa: E402
 import logging  # noqa: E402
 logging.disable(logging.CRITICAL)   # the library warns on every short read; the checks read millions of them
 
+_NULL = logging.NullHandler()
+logging.getLogger().addHandler(_NULL)      # installed from the start: the tools' logging.basicConfig() then adds nothing
+
+
+def debug_logging(on):
+    """The library's debug logging as the tools' --debug option switches it on (logging.basicConfig(level=DEBUG));
+    the records go to a handler that drops them.  What the library does may not depend on it."""
+    root = logging.getLogger()
+    if on:
+        if _NULL not in root.handlers:
+            root.addHandler(_NULL)
+        root.setLevel(logging.DEBUG)
+        logging.disable(logging.NOTSET)
+    else:
+        logging.disable(logging.CRITICAL)
+        root.setLevel(logging.WARNING)
+
+
+class Env:
+    """Environment of one judged history: a deterministic fraction (chosen from `key`, never from process-local
+    counters) runs with the library's debug logging switched on.  The specification does not know the environment:
+    a history recorded under debug logging is judged exactly like any other."""
+
+    def __init__(self, *key, every=4):
+        import zlib
+        self.on = every > 0 and zlib.crc32(repr(key).encode()) % every == 1
+
+    def __enter__(self):
+        if self.on:
+            debug_logging(True)
+        return self
+
+    def __exit__(self, *a):
+        if self.on:
+            debug_logging(False)
+        return False
+
+
 P, T, PAD = 1012, 2, 0x40
 
 
@@ -89,6 +127,11 @@ class KeepOpen(io.BytesIO):
 
 def run_blocker(chunks, finaliser, hazards=False):
     """Perform write(chunk)... then the finaliser on a real Block1014; return the wrapped file's bytes."""
+    with Env('blk', [len(c) for c in chunks[:12]], finaliser):
+        return _run_blocker(chunks, finaliser, hazards)
+
+
+def _run_blocker(chunks, finaliser, hazards):
     f = KeepOpen()
     b = mciipm.Block1014(f)
     buf = bytearray(max([len(c) for c in chunks] + [1]))
@@ -123,10 +166,11 @@ def run_oneshot_block(data):
 
 def run_unblocker(blocked, sizes):
     """sizes: list of ints; 0 means read() with no argument. Returns list of returned byte strings."""
-    u = mciipm.Unblock1014(io.BytesIO(blocked))
-    outs = []
-    for n in sizes:
-        outs.append(u.read() if n == 0 else u.read(n))
+    with Env('unblk', len(blocked), sizes[:12]):
+        u = mciipm.Unblock1014(io.BytesIO(blocked))
+        outs = []
+        for n in sizes:
+            outs.append(u.read() if n == 0 else u.read(n))
     return outs
 
 
@@ -165,13 +209,24 @@ def ev(op, n=0, out='', b=b''):
     return {'op': op, 'n': n, 'out': out, 'bytes': list(b)}
 
 
+class _Leave(Exception):
+    pass
+
+
 def vbs_write_events(recs, blocked, fins=('close',), api='class', fileobj=None, peek=0):
     """Perform the writer history on the real code. fins: sequence of 'close' / 'exit'
     ('exit' = leaving a `with` block; 'close','exit' = close() inside the block then leaving it).
     Returns (events, file bytes)."""
+    with Env('vbsw', [len(r) for r in recs[:12]], blocked, list(fins), api):
+        return _vbs_write_events(recs, blocked, fins, api, fileobj, peek)
+
+
+def _vbs_write_events(recs, blocked, fins, api, fileobj, peek):
     events = [ev('write', len(r), '', r) for r in recs]
     if api == 'func':
-        data = mciipm.vbs_list_to_bytes(recs, blocked=blocked)
+        # a list, a tuple, or a one-shot iterable (the parameter is documented as an iterable of byte strings)
+        src = (recs, tuple(recs), iter(recs), (x for x in recs))[(len(recs) + len(recs[0] if recs else b'')) % 4]
+        data = mciipm.vbs_list_to_bytes(src, blocked=blocked)
         events.append(ev('fin', 1))
         events.append(ev('file', 0, '', data))
         return events, data
@@ -194,7 +249,7 @@ def vbs_write_events(recs, blocked, fins=('close',), api='class', fileobj=None, 
     if api == 'class2':
         # second realisation of the same history: the records are written outside any with-block, every
         # context-manager exit is a real `with writer: pass` (entered after whatever happened before)
-        w = mciipm.VbsWriter(f, blocked=blocked)
+        w = mciipm.VbsWriter(f, blocked)            # the flag passed by position
         for r in recs:
             w.write(r)
         for x in fins:
@@ -217,11 +272,19 @@ def vbs_write_events(recs, blocked, fins=('close',), api='class', fileobj=None, 
         return events, data
     if 'exit' in fins:
         k = fins.index('exit')
-        with mciipm.VbsWriter(f, blocked=blocked) as w:
-            for r in recs:
-                w.write(r)
-            for _ in fins[:k]:
-                w.close()
+        # every third history leaves the with-block through an exception raised by the caller's own code after the
+        # last write (the caller catches it outside): leaving is leaving
+        by_exception = (len(recs) + sum(len(x) for x in recs[:3]) + k) % 3 == 1
+        try:
+            with mciipm.VbsWriter(f, blocked=blocked) as w:
+                for r in recs:
+                    w.write(r)
+                for _ in fins[:k]:
+                    w.close()
+                if by_exception:
+                    raise _Leave()
+        except _Leave:
+            pass
         after = fins[k + 1:]
     else:
         w = mciipm.VbsWriter(f, blocked=blocked)
@@ -243,6 +306,11 @@ def vbs_write_events(recs, blocked, fins=('close',), api='class', fileobj=None, 
 
 def read_events(data, blocked, make_reader=None, limit=100000, project=None, fileobj=None):
     """Iterate a real reader over `data` until it stops or raises; one 'next' event per call."""
+    with Env('rd', len(data), blocked, data[-2:]):
+        return _read_events(data, blocked, make_reader, limit, project, fileobj)
+
+
+def _read_events(data, blocked, make_reader, limit, project, fileobj):
     f = fileobj if fileobj is not None else io.BytesIO(data)
     events = []
     try:
